@@ -895,6 +895,13 @@ Qed.
 Lemma cu_unsub ci : ci_sq ci = None -> cu ci = [].
 Proof. unfold cu, scb. intros ->. destruct (ci_kind ci); reflexivity. Qed.
 
+Lemma as_call_iwf s e a ci arg : is_tgt e = false -> cwf s ci -> tgt_is ci a -> iwf (emit s e) (as_call a ci arg).
+Proof.
+  intros T C TG. pose proof (cwf_as_call _ _ _ arg C TG) as CA.
+  assert (CE : cwf (emit s e) (as_call a ci arg)) by (eapply nsf_mono; [apply sle_emit; exact T | exact CA]).
+  apply cwf_iff in CE. apply CE.
+Qed.
+
 Lemma I6_retinvoke r m0 k0 s pre s' :
   WF (MRetInvoke r m0 :: k0) s -> KI (MRetInvoke r m0 :: k0) s ->
   handle (MRetInvoke r m0) s = (pre, s') -> I6 (MRetInvoke r m0 :: k0) s -> I6 (pre ++ k0) s'.
@@ -907,11 +914,13 @@ Proof.
   - (* ret_to *)
     simpl in MW. pose proof (Forall_inv MW) as [TK TQ]. simpl in TK, TQ.
     inversion E; subst. eapply (I6_keff (MRetInvoke _ m0)); eauto.
-    apply ke_submit_call; [apply ke_emit; [apply ke_refl | reflexivity] | destruct ci; exact I | destruct ci; exact TQ].
+    apply ke_submit_call; [apply ke_emit; [apply ke_refl | reflexivity] | destruct ci; exact I | | destruct ci; exact TQ].
+    apply (as_call_iwf s); [reflexivity | exact (Forall_inv_tail MW) | split; [exact TK | exact TQ]].
   - simpl in MW. pose proof (Forall_inv MW) as [TK TQ]. simpl in TK, TQ.
     destruct m0 as [mm|]; inversion E; subst.
     + eapply (I6_keff (MRetInvoke _ (Some mm))); eauto.
-      apply ke_submit_call; [apply ke_emit; [apply ke_refl | reflexivity] | destruct ci; exact I | destruct ci; exact TQ].
+      apply ke_submit_call; [apply ke_emit; [apply ke_refl | reflexivity] | destruct ci; exact I | | destruct ci; exact TQ].
+      apply (as_call_iwf s); [reflexivity | exact (Forall_inv_tail MW) | split; [exact TK | exact TQ]].
     + eapply (I6_keff (MRetInvoke _ None)); eauto; [apply ke_emit; [apply ke_refl | reflexivity]|].
       simpl. rewrite cu_unsub; auto.
   - (* the notifier *)
@@ -927,7 +936,8 @@ Proof.
     destruct inner as [[p ci]|]; inversion E; subst.
     + simpl in MW. pose proof (Forall_inv MW) as [TK TQ]. simpl in TK, TQ.
       eapply (I6_keff (MRetInvoke _ m0)); [reflexivity | exact QP | | reflexivity | exact I1].
-      apply ke_submit_call; [apply ke_refl | destruct ci; exact I | destruct ci; exact TQ].
+      apply ke_submit_call; [apply ke_refl | destruct ci; exact I | | destruct ci; exact TQ].
+      apply (as_call_iwf s); [reflexivity | exact (Forall_inv_tail MW) | split; [exact TK | exact TQ]].
     + eapply (I6_keff (MRetInvoke _ m0)); [reflexivity | exact QP | apply ke_refl | reflexivity | exact I1].
   - (* the wrapper of a slab child *)
     destruct m0 as [mm|]; inversion E; subst.
